@@ -443,6 +443,18 @@ def reappendAll (pp : List Str) : List Str → Tree → Tree
 def laterNames (nm : Str) (cs : List Tree) : List Str :=
   ((cs.dropWhile (fun c => !(c.name == nm))).drop 1).map Tree.name
 
+/-- "Replace to_node with from_node": the loop over `to_node_siblings[to_node_idx:]` — detach
+`to_node`, attach `from_node` (`Fm`, sitting at `fp` in `t0` when `live0`), re-append the later
+siblings; `dp` is the handle of `to_node`, `pp` of its parent -/
+def replaceAt (live0 : Bool) (fp dp pp : List Str) (Fm t0 : Tree) : Except Err Tree :=
+  let later := laterNames (dp.getLast?.getD []) ((getRel pp t0).map Tree.children |>.getD [])
+  let t1 := removeAt dp t0                  -- to_node.parent = None
+  let live := live0 && (getRel fp t1).isSome
+  if live && fp.isPrefixOf pp then .error .other else   -- LoopError
+  match attachOne pp Fm (if live then removeAt fp t1 else t1) with   -- from_node.parent = parent
+  | .error e => .error e
+  | .ok t2 => .ok (reappendAll pp later t2)
+
 def stepReplace (cfg : Cfg) (st : St) (pr : Str × Option Str) : Except Err St :=
   match resolveFrom cfg st pr.1 with
   | .error e => .error e
@@ -458,18 +470,13 @@ def stepReplace (cfg : Cfg) (st : St) (pr : Str × Option Str) : Except Err St :
         if st.src.isNone && fp == dp then .error .tree else
         let live0 := st.src.isNone && !cfg.copy
         let Fc := if cfg.copy then relabel st.next F0 else (F0, st.next)
-        let Fm := if cfg.deleteChildren then setKids [] Fc.1 else Fc.1
-        let t0 := if live0 && cfg.deleteChildren then modifyAt fp (setKids []) st.dst else st.dst
         match parentOf dp with
         | none => .error .other                     -- the root has no parent: `None.children`
         | some pp =>
-          let later := laterNames (dp.getLast?.getD []) ((getRel pp t0).map Tree.children |>.getD [])
-          let t1 := removeAt dp t0                  -- to_node.parent = None
-          let live := live0 && (getRel fp t1).isSome
-          if live && fp.isPrefixOf pp then .error .other else   -- LoopError
-          match attachOne pp Fm (if live then removeAt fp t1 else t1) with   -- from_node.parent = parent
+          match replaceAt live0 fp dp pp (if cfg.deleteChildren then setKids [] Fc.1 else Fc.1)
+              (if live0 && cfg.deleteChildren then modifyAt fp (setKids []) st.dst else st.dst) with
           | .error e => .error e
-          | .ok t2 => .ok { st with dst := reappendAll pp later t2, next := Fc.2 }
+          | .ok t => .ok { st with dst := t, next := Fc.2 }
 
 def validReplace (cfg : Cfg) (st : St) (ps : List (Str × Option Str)) : Bool :=
   (!cfg.withFullPath || (ps.map (norm cfg)).all (fromRootOk cfg st.tree.name))
